@@ -292,11 +292,24 @@ func (s *Session) setStorageCallbacks() {
 			return true
 		}
 
+		endSeqNo := resendMsg.EndSeqNo()
+		if endSeqNo == 0 {
+			// EndSeqNo = 0 requests every message up to the last one sent.
+			endSeqNo, err = s.counter.GetCurrSeqNum(fix.StorageID{
+				Sender: s.LogonSettings.SenderCompID,
+				Target: s.LogonSettings.TargetCompID,
+				Side:   fix.Outgoing,
+			})
+			if err != nil {
+				return true
+			}
+		}
+
 		resendMessages, err := s.messageStorage.Messages(fix.StorageID{
 			Sender: s.LogonSettings.SenderCompID,
 			Target: s.LogonSettings.TargetCompID,
 			Side:   fix.Outgoing,
-		}, resendMsg.BeginSeqNo(), resendMsg.EndSeqNo())
+		}, resendMsg.BeginSeqNo(), endSeqNo)
 		if err != nil {
 			return true
 		}
